@@ -6,7 +6,8 @@ MCBase == << [name |-> "ma", items |-> <<Item("type", "Alpha", 0), Item("impl", 
 MCUnrelated == {"Uno", "Duo", "Work", "Ada", "Zen"}
 MCUnrelatedSmall == {"Uno", "Work"}
 \* "foreign_attr": an item carrying another crate's attribute that merely ENDS in `config` (only #[diplomat::config] is configuration)
-MCNonBridge == {"free_fn", "same_named_struct", "same_named_impl", "plain_module", "constant", "foreign_attr"}
+\* "outer_attr": Diplomat attributes (rename, namespace) on the ORDINARY module that encloses the bridge module `mb`
+MCNonBridge == {"free_fn", "same_named_struct", "same_named_impl", "plain_module", "constant", "foreign_attr", "outer_attr"}
 \* negative model: also allow swapping two impl blocks of the same type
 SwapAny(m, i) ==
   /\ Tick /\ m \in 1..Len(mods) /\ i \in 1..(Len(mods[m].items) - 1)
